@@ -409,7 +409,7 @@ func mergeRefs(c *Term, a, b *RefV) *RefV {
 				return
 			}
 			if fo, ok := o.(*FuncVal); ok {
-				if fr, ok := r.(*FuncVal); ok && fo.Fn == fr.Fn && fo.Model == fr.Model && len(fo.Bindings) == len(fr.Bindings) && len(fo.Data) == len(fr.Data) && fo.HasRecv == fr.HasRecv {
+				if fr, ok := r.(*FuncVal); ok && fo.Fn == fr.Fn && fo.Model == fr.Model && len(fo.Bindings) == len(fr.Bindings) && len(fo.Data) == len(fr.Data) && fo.HasRecv == fr.HasRecv && (fo.Model == "" || sameValues(fo.Data, fr.Data)) {
 					// merge bindings pointwise
 					n := &FuncVal{Fn: fo.Fn, Model: fo.Model, HasRecv: fo.HasRecv}
 					og := out.Alts[i].G
@@ -657,7 +657,18 @@ func refIdent(r Ref) string {
 		if x.Fn != nil {
 			return fmt.Sprintf("f%p", x.Fn)
 		}
-		return "fm" + x.Model
+		id := "fm" + x.Model
+		for _, d := range x.Data {
+			switch dv := d.(type) {
+			case *RefV:
+				for _, a := range dv.Alts {
+					id += ":" + refIdent(a.R)
+				}
+			case *Term:
+				id += fmt.Sprintf(":t%d", dv.id)
+			}
+		}
+		return id
 	case *IfaceVal:
 		s := "i(" + types.TypeString(x.T, nil) + ":"
 		if rv, ok := x.V.(*RefV); ok {
@@ -668,4 +679,23 @@ func refIdent(r Ref) string {
 		return s + ")"
 	}
 	return fmt.Sprintf("%T", r)
+}
+
+// sameValues: syntactic identity of value lists (model function data must not be merged pointwise).
+func sameValues(a, b []Value) bool {
+	if len(a) != len(b) {
+		return false
+	}
+	for i := range a {
+		if a[i] == b[i] {
+			continue
+		}
+		ra, ok1 := a[i].(*RefV)
+		rb, ok2 := b[i].(*RefV)
+		if ok1 && ok2 && len(ra.Alts) == 1 && len(rb.Alts) == 1 && ra.Alts[0].G == rb.Alts[0].G && sameRef(ra.Alts[0].R, rb.Alts[0].R) {
+			continue
+		}
+		return false
+	}
+	return true
 }
